@@ -95,6 +95,15 @@ pub fn check_c01<T: Sc>(r: &Reference, obs: &Obs<T>, out: &mut Vec<Finding>, g: 
     let eps = T::EPS;
     let Some(svd) = &r.svd else { return };
     let Some(c) = obs.coef_f64() else {
+        // A basis matrix whose dynamic range exceeds what the scalar type can hold in one decomposition (largest / smallest
+        // non-zero singular value above 1/eps^2: 7e13 in f32, 2e31 in f64) is beyond any working-precision SVD - nalgebra's
+        // returns NaN singular values there, and the repaired library (fix 17817ed) treats that like a failed evaluation.
+        // Not judged; everything else that evaluates must report coefficients.
+        let smax = svd.s.iter().cloned().fold(0.0f64, f64::max);
+        let smin_pos = svd.s.iter().cloned().filter(|v| *v > 0.0).fold(f64::INFINITY, f64::min);
+        if smax.is_finite() && smin_pos.is_finite() && smax / smin_pos > 1.0 / (eps * eps) {
+            return;
+        }
         out.push(f("C01", "coefficients-absent", "the model evaluates (finite basis matrix) but the problem reports no linear coefficients".into()));
         return;
     };
